@@ -622,10 +622,10 @@ fn parts(ctx: &Ctx) -> Vec<PartSpec> {
     let mut v = Vec::new();
     if ctx.quick() {
         for f in 0..N_CONSTRUCT {
-            v.push(PartSpec::new(&format!("str-d5-first{}", f), json!({"dom": "str", "depth": 5, "first": f})).budget(50.0));
-            v.push(PartSpec::new(&format!("slice-d5-first{}", f), json!({"dom": "slice", "depth": 5, "first": f})).budget(50.0));
+            v.push(PartSpec::new(&format!("str-d5-first{}", f), json!({"dom": "str", "depth": 5, "first": f})).budget(150.0));
+            v.push(PartSpec::new(&format!("slice-d5-first{}", f), json!({"dom": "slice", "depth": 5, "first": f})).budget(150.0));
         }
-        v.push(PartSpec::new("public-api-d6", json!({"dom": "api", "depth": 6})).budget(50.0));
+        v.push(PartSpec::new("public-api-d6", json!({"dom": "api", "depth": 6})).budget(150.0));
     } else {
         for f in 0..N_CONSTRUCT {
             v.push(PartSpec::new(&format!("str-d7-first{}", f), json!({"dom": "str", "depth": 7, "first": f})).budget(3000.0));
